@@ -66,7 +66,8 @@ RULE = ("every token sequence up to the length/branch-count bounds over {NOP, 2-
         "every token boundary and every mid-token address, CALL rel32 to every boundary} (x86_32) and the delay-slot alphabet "
         "(mips32l, thorough), every start boundary, option families default / every single option / full option product on the "
         "short programs; a case is non-trivial when the resulting graph has at least two blocks or a bad block or was cut by an "
-        "option; distinct by the canonical snapshot of the resulting graph")
+        "option; every (program, start, options) triple is enumerated once (distinct by construction), the number of distinct "
+        "resulting graph shapes is reported per shard")
 LEVEL_TEXT = ("Bounded-exhaustive: every program of the token lattice is disassembled by the real engine from every start boundary "
               "under every option combination of the stated families, and the returned AsmCFG is compared, block by block, with "
               "fresh single-instruction decodings and with the successor/limit rules the property states; the merge pass is run "
@@ -106,7 +107,7 @@ BOUNDS = {
                    "default": [(1, 1), (2, 2), (3, 3), (4, 2), (5, 1), (6, 0)],
                    "single": [(1, 1), (2, 2), (3, 2), (4, 1)],
                    "cross": [(1, 1), (2, 2), (3, 0)]},
-        "mips32l": {"start0": [(6, 1)],
+        "mips32l": {"start0": [],
                     "default": [(1, 1), (2, 2), (3, 3), (4, 2), (5, 1), (6, 0)],
                     "single": [(1, 1), (2, 2), (3, 2), (4, 0)],
                     "cross": [(1, 1), (2, 2), (3, 0)]},
